@@ -659,4 +659,233 @@ example :
 
 end Router
 
+/-! ## audit: further non-vacuity instances and strengthened statements -/
+section Audit
+
+/-- `u128Add_some`, `minOneSide_some`, `collateralOneSide_some`: the `some` branch is reachable (and the
+`none` = overflow branch too) -/
+example : u128Add 3 4 = some 7 ∧ u128Add (2 ^ 128 - 1) 1 = none := by decide
+example : (⟨false, 100, 50, 5, 0, 1, 1, 10, 0, 0, 20, 106, 51⟩ : VMarket).minOneSide true = some 106 ∧
+    (⟨false, 100, 50, 5, 0, 1, 1, 10, 0, 0, 20, 106, 51⟩ : VMarket).minOneSide false = some 51 ∧
+    (⟨false, 100, 50, 5, 0, 1, 1, 10, 7, 3, 20, 106, 51⟩ : VMarket).collateralOneSide true = some 13 ∧
+    (⟨false, 100, 50, 5, 0, 1, 1, 10, 7, 3, 20, 106, 51⟩ : VMarket).collateralOneSide false = some 27 := by decide
+
+/-- `validateToken_sound` hypothesis with a NON-ZERO exclusion (impure and pure market) -/
+example : (⟨false, 100, 50, 5, 0, 1, 1, 10, 0, 0, 20, 126, 51⟩ : VMarket).validateToken true 20 = some true ∧
+    (⟨true, 51, 50, 0, 0, 0, 0, 3, 4, 5, 6, 111, 0⟩ : VMarket).validateToken false 10 = some true := by decide
+
+/-- `validate_establishes_solvency` instantiated on a PURE market (the existing example is impure) -/
+example : Solvent ⟨true, 51, 50, 0, 0, 0, 0, 3, 4, 5, 6, 101, 0⟩ :=
+  validate_establishes_solvency (by decide)
+
+/-- `validate_excluding_sound` instantiated with non-zero exclusions on both sides -/
+example : Solvent ⟨false, 100, 50, 5, 0, 1, 1, 10, 0, 0, 20, 106, 51⟩ ∧ 20 ≤ 126 ∧ 9 ≤ 60 :=
+  validate_excluding_sound (m := ⟨false, 100, 50, 5, 0, 1, 1, 10, 0, 0, 20, 126, 60⟩) (exL := 20) (exS := 9)
+    rfl (by decide)
+
+/-- AUDIT (strength): `validate_excluding_sound` assumes `m.pure = false`; the pure-market counterpart (both
+exclusions are summed and taken from the single recorded balance) -/
+theorem validate_excluding_sound_pure {m : VMarket} {exL exS : Nat} (hp : m.pure = true)
+    (h : m.validate exL exS = some true) :
+    Solvent { m with balL := m.balL - (exL + exS) } ∧ exL + exS ≤ m.balL := by
+  unfold VMarket.validate at h
+  simp only [hp, if_true] at h
+  split at h
+  · have a := validateToken_sound h
+    simp [hp, VMarket.balance] at a
+    refine ⟨?_, by omega⟩
+    unfold Solvent; simp [hp]; omega
+  · cases h
+
+example : Solvent ⟨true, 51, 50, 0, 0, 0, 0, 3, 4, 5, 6, 101, 0⟩ ∧ 7 + 3 ≤ 111 :=
+  validate_excluding_sound_pure (m := ⟨true, 51, 50, 0, 0, 0, 0, 3, 4, 5, 6, 111, 0⟩) (exL := 7) (exS := 3)
+    rfl (by decide)
+
+/-- … and the pure market of the file's third example is rejected with ONE unit excluded although it is solvent -/
+example : Solvent ⟨true, 51, 50, 0, 0, 0, 0, 0, 0, 0, 0, 101, 0⟩ := validate_establishes_solvency (by decide)
+
+/-- `recorded_subBal` hypothesis (long side, short side, pure market, and the rejected underflow) -/
+example : (⟨12, 13, ⟨false, 0, 0, 0, 0, 0, 0, 0, 0, 0, 0, 100, 50⟩⟩ : VMkt).subBal true 40 =
+      some ⟨12, 13, ⟨false, 0, 0, 0, 0, 0, 0, 0, 0, 0, 0, 60, 50⟩⟩ ∧
+    (⟨12, 13, ⟨false, 0, 0, 0, 0, 0, 0, 0, 0, 0, 0, 100, 50⟩⟩ : VMkt).subBal false 50 =
+      some ⟨12, 13, ⟨false, 0, 0, 0, 0, 0, 0, 0, 0, 0, 0, 100, 0⟩⟩ ∧
+    (⟨12, 12, ⟨true, 0, 0, 0, 0, 0, 0, 0, 0, 0, 0, 100, 0⟩⟩ : VMkt).subBal false 30 =
+      some ⟨12, 12, ⟨true, 0, 0, 0, 0, 0, 0, 0, 0, 0, 0, 70, 0⟩⟩ ∧
+    (⟨12, 13, ⟨false, 0, 0, 0, 0, 0, 0, 0, 0, 0, 0, 100, 50⟩⟩ : VMkt).subBal false 51 = none := by decide
+
+/-- `wstep_covered` / `vault_covers_history`: a concrete `Covered` world — two markets (12/13 and 12/14) SHARING
+the vault of token 12, the vault holding a donated surplus — in which every kind of step succeeds, a failed step
+(an over-withdrawal) is skipped, and the history ends in a non-initial covered world -/
+example : ∃ w : World, Covered w ∧
+    (wstep w (.transferIn 1 false 5)).isSome = true ∧ (wstep w (.transferOut 0 true 40)).isSome = true ∧
+    (wstep w (.move 0 1 12 100)).isSome = true ∧ (wstep w (.transferOut 0 true 101)).isSome = false ∧
+    Covered (wrun w [.transferOut 0 true 40, .transferOut 0 true 101, .move 0 1 12 60, .donate 13 1, .transferIn 1 false 5]) ∧
+    (wrun w [.transferOut 0 true 40, .transferOut 0 true 101, .move 0 1 12 60, .donate 13 1, .transferIn 1 false 5]).total 12 = 210 ∧
+    (wrun w [.transferOut 0 true 40, .transferOut 0 true 101, .move 0 1 12 60, .donate 13 1, .transferIn 1 false 5]).vault 12 = 260 ∧
+    ((wrun w [.transferOut 0 true 40, .transferOut 0 true 101, .move 0 1 12 60, .donate 13 1, .transferIn 1 false 5]).mkt 1).st.balL = 210 := by
+  have hc : Covered ⟨2, fun i => if i = 0 then ⟨12, 13, ⟨false, 0, 0, 0, 0, 0, 0, 0, 0, 0, 0, 100, 50⟩⟩
+                                   else ⟨12, 14, ⟨false, 0, 0, 0, 0, 0, 0, 0, 0, 0, 0, 150, 70⟩⟩,
+                     fun t => if t = 12 then 300 else if t = 13 then 50 else if t = 14 then 70 else 0⟩ := by
+    intro t
+    by_cases h12 : t = 12
+    · subst h12; decide
+    · by_cases h13 : t = 13
+      · subst h13; decide
+      · by_cases h14 : t = 14
+        · subst h14; decide
+        · have a : ¬ 12 = t := fun h => h12 h.symm
+          have b : ¬ 13 = t := fun h => h13 h.symm
+          have c : ¬ 14 = t := fun h => h14 h.symm
+          simp [World.total, List.range_succ, VMkt.recorded, a, b, c]
+  exact ⟨_, hc, by decide, by decide, by decide, by decide, vault_covers_history _ _ hc, by decide, by decide, by decide⟩
+
+section LifeAudit
+open Gmx.Life
+
+/-- `life_create_frame` / `life_exec_frame` / `life_close_frame` / `life_recorded_le_vault`: their hypotheses are
+met along a real life cycle (create → price → execute completed → close), on the initial state and on a
+non-initial one (second deposit created and CANCELLED after the first completed) -/
+example : LifeCovered (init 1000 500 100) := ⟨Nat.le_refl _, Nat.le_refl _⟩
+example : ((create (init 1000 500 100) 0 0 300 20 false 200000).bind fun s =>
+      (exec (price s 0) .keeper 0 0 5000 false).map fun r =>
+        (r.1.recLong, r.1.vaultLong, r.1.recShort, r.1.vaultShort, r.2.1, r.2.2)) =
+    some (300, 300, 20, 20, .completed, 5000) := by decide
+example : ((create (init 1000 500 100) 0 0 300 20 false 200000).bind fun s =>
+      (exec (price s 0) .keeper 0 0 5000 false).bind fun r =>
+        (close r.1 .keeper 0 0).bind fun s2 =>
+          (create s2 0 1 100 0 true 200000).bind fun s3 =>
+            (exec s3 .keeper 0 1 9 false).bind fun r2 =>
+              (close r2.1 (.user 0) 0 1).map fun s4 =>
+                (r2.2.1, s4.recLong, s4.vaultLong, s4.recShort, (s4.users 0).long, (s4.users 0).short)) =
+    some (.cancelled, 300, 300, 20, 700, 480) := by decide
+/-- `life_recorded_le_vault` instantiated on a NON-initial covered state (vault holds a donated surplus) -/
+example : ∀ s', create { init 1000 500 100 with vaultLong := 310, recLong := 300, vaultShort := 20, recShort := 20 }
+      0 0 300 20 false 200000 = some s' → LifeCovered s' :=
+  fun _ h => (life_recorded_le_vault (s := { init 1000 500 100 with vaultLong := 310, recLong := 300, vaultShort := 20, recShort := 20 })
+    ⟨by decide, by decide⟩).1 h
+example : (create { init 1000 500 100 with vaultLong := 310, recLong := 300, vaultShort := 20, recShort := 20 }
+      0 0 300 20 false 200000).isSome = true := by decide
+
+end LifeAudit
+
+section Life2Audit
+open Gmx.Life2
+
+/-- `l2_solvent_step` on the initial and on a non-initial solvent state -/
+example : Life2.Solvent (Life2.step (Life2.init 10000 5000 100) (.create 0 0 0 2000 300 false 500000 0)).1 :=
+  l2_solvent_step (solvent_init _ _ _) _
+example : Life2.Solvent { Life2.init 10000 5000 100 with vaultLong := 2001, recLong := 2000, vaultShort := 300, recShort := 300, minted := 600, burned := 10 } := ⟨by decide, by decide, by decide⟩
+
+/-- `l2_complete_deposit` hypothesis: a deposit escrowing 2000/300 completes and mints 600 -/
+example : ∃ s', Life2.complete (Life2.init 10000 5000 100) 0 0 0 { state := 0, escLong := 2000, escShort := 300, escMt := 0, createdAt := 100, execLamports := 500000, soft := false, receiver := 0 } 600 0 = some s' ∧
+    s'.minted = 600 ∧ s'.vaultLong = 2000 ∧ s'.recShort = 300 := ⟨_, rfl, rfl, rfl, rfl⟩
+
+/-- `l2_complete_withdrawal` hypothesis: burning 100 market tokens for 333/50 on a funded market; and the
+rejected branches (pays out more than recorded; burns more than the supply) -/
+example : ∃ s', Life2.complete { Life2.init 10000 5000 100 with vaultLong := 2001, recLong := 2000, vaultShort := 300, recShort := 300, minted := 600, burned := 10 } 0 1 0 { state := 0, escLong := 0, escShort := 0, escMt := 100, createdAt := 100, execLamports := 0, soft := false, receiver := 0 } 333 50 = some s' ∧
+    s'.burned = 110 ∧ s'.vaultLong = 1668 ∧ s'.recLong = 1667 ∧ s'.recShort = 250 := ⟨_, rfl, rfl, rfl, rfl, rfl⟩
+example : (Life2.complete { Life2.init 10000 5000 100 with vaultLong := 2001, recLong := 2000, minted := 600, burned := 10 }
+      0 1 0 { state := 0, escLong := 0, escShort := 0, escMt := 100, createdAt := 100, execLamports := 0, soft := false, receiver := 0 } 2001 0).isSome = false ∧
+    (Life2.complete { Life2.init 10000 5000 100 with vaultLong := 2001, recLong := 2000, minted := 600, burned := 10 }
+      0 1 0 { state := 0, escLong := 0, escShort := 0, escMt := 591, createdAt := 100, execLamports := 0, soft := false, receiver := 0 } 1 0).isSome = false := by decide
+
+/-- `l2_complete_increase` hypothesis -/
+example : ∃ s', Life2.complete (Life2.init 10000 5000 100) 0 4 0 { state := 0, escLong := 700, escShort := 0, escMt := 0, createdAt := 100, execLamports := 500000, soft := false, receiver := 0 } 0 0 = some s' ∧
+    s'.vaultLong = 700 ∧ s'.recLong = 700 := ⟨_, rfl, rfl, rfl⟩
+
+/-- AUDIT (strength): `l2_complete_withdrawal` states the vault side with `Nat` truncated subtraction
+(`s'.vaultLong = s.vaultLong - x`) while the model only guards the RECORDED balance (`x ≤ s.recLong`); from a
+`Solvent` state nothing truncates: subtraction-free equations, and the result is solvent again -/
+theorem l2_complete_withdrawal_exact {s s' : Life2.St} {u i x y : Nat} {act : Life2.Act} (hs : Life2.Solvent s)
+    (h : Life2.complete s u 1 i act x y = some s') :
+    s'.vaultLong + x = s.vaultLong ∧ s'.recLong + x = s.recLong ∧
+    s'.vaultShort + y = s.vaultShort ∧ s'.recShort + y = s.recShort ∧
+    s'.burned = s.burned + act.escMt ∧ Life2.Solvent s' := by
+  obtain ⟨b, _, bm, vl, rl, xl, vs, rs, ys⟩ := l2_complete_withdrawal h
+  have := hs.long; have := hs.short
+  exact ⟨by omega, by omega, by omega, by omega, b, ⟨by omega, by omega, bm⟩⟩
+
+example : Life2.Solvent { Life2.init 10000 5000 100 with vaultLong := 2001, recLong := 2000, vaultShort := 300, recShort := 300, minted := 600, burned := 10 } ∧
+    (Life2.complete { Life2.init 10000 5000 100 with vaultLong := 2001, recLong := 2000, vaultShort := 300, recShort := 300, minted := 600, burned := 10 } 0 1 0 { state := 0, escLong := 0, escShort := 0, escMt := 100, createdAt := 100, execLamports := 0, soft := false, receiver := 0 } 333 50).isSome = true :=
+  ⟨⟨by decide, by decide, by decide⟩, by decide⟩
+
+/-- AUDIT (strength): the docstring of `l2_complete_deposit` promises the swap case ("a swap adds the input to and
+removes the output from both") but no theorem states it; here it is for both swap kinds, subtraction-free on the
+recorded side and — from a `Solvent` state — on the vault side too -/
+theorem l2_complete_swap {s s' : Life2.St} {u i x y : Nat} {act : Life2.Act} (hs : Life2.Solvent s) :
+    (Life2.complete s u 2 i act x y = some s' →
+      s'.vaultLong = s.vaultLong + act.escLong ∧ s'.recLong = s.recLong + act.escLong ∧
+      s'.vaultShort + x = s.vaultShort ∧ s'.recShort + x = s.recShort ∧
+      s'.minted = s.minted ∧ s'.burned = s.burned) ∧
+    (Life2.complete s u 3 i act x y = some s' →
+      s'.vaultShort = s.vaultShort + act.escShort ∧ s'.recShort = s.recShort + act.escShort ∧
+      s'.vaultLong + x = s.vaultLong ∧ s'.recLong + x = s.recLong ∧
+      s'.minted = s.minted ∧ s'.burned = s.burned) := by
+  have := hs.long; have := hs.short
+  constructor
+  · intro h
+    simp [Life2.complete] at h
+    obtain ⟨h1, rfl⟩ := h
+    simp [Life2.setAct]; omega
+  · intro h
+    simp [Life2.complete] at h
+    obtain ⟨h1, rfl⟩ := h
+    simp [Life2.setAct]; omega
+
+example : ∃ s', Life2.complete { Life2.init 10000 5000 100 with vaultLong := 2001, recLong := 2000, vaultShort := 300, recShort := 300, minted := 600, burned := 10 } 0 2 0 { state := 0, escLong := 40, escShort := 0, escMt := 0, createdAt := 100, execLamports := 500000, soft := false, receiver := 0 } 30 0 = some s' ∧
+    s'.vaultLong = 2041 ∧ s'.recLong = 2040 ∧ s'.vaultShort = 270 ∧ s'.recShort = 270 := ⟨_, rfl, rfl, rfl, rfl, rfl⟩
+
+end Life2Audit
+
+section RouterAudit
+
+/-- `excl_same_long` / `excl_same_short` / `validExcl_joint_long` / `validExcl_joint_short`: hypotheses met with
+both amounts non-zero -/
+example : (⟨2, 13, 12, 1000, 1080, 0, 0, 940, 0⟩ : RMarket).side 13 = some true ∧
+    (⟨2, 13, 12, 1000, 1080, 0, 0, 940, 0⟩ : RMarket).excl 13 13 30 30 = some (60, 0) ∧
+    (⟨2, 13, 12, 1000, 1080, 0, 0, 940, 0⟩ : RMarket).validExcl 13 13 30 30 = true ∧
+    (⟨2, 13, 12, 1000, 1080, 0, 0, 941, 0⟩ : RMarket).validExcl 13 13 30 30 = false := by decide
+example : (⟨2, 12, 13, 1080, 1000, 0, 0, 0, 940⟩ : RMarket).side 13 = some false ∧
+    (⟨2, 12, 13, 1080, 1000, 0, 0, 0, 940⟩ : RMarket).excl 13 13 30 30 = some (0, 60) ∧
+    (⟨2, 12, 13, 1080, 1000, 0, 0, 0, 940⟩ : RMarket).validExcl 13 13 30 30 = true := by decide
+example : (940 : Nat) + 30 + 30 ≤ 1000 :=
+  validExcl_joint_long ⟨2, 13, 12, 1000, 1080, 0, 0, 940, 0⟩ 13 30 30 rfl (by decide) (by decide)
+
+/-- `same_market_outputs_jointly_covered` instantiated: the file's example `exSt` has token 13 on the SHORT side of
+market 2, so it does not meet `hs : m.side t = some true`; this is the mirrored state (13 = long token of market 2) -/
+example : (940 : Nat) + 30 + 30 ≤ 1000 :=
+  same_market_outputs_jointly_covered
+    (s := { markets := [⟨2, 13, 12, 1000, 1000, 0, 0, 940, 0⟩], cur := ⟨0, 12, 12, 5000, 0, 0, 0, 0, 0⟩, outs := [30, 30], trace := [] })
+    (s' := { markets := [⟨2, 13, 12, 1000, 1080, 0, 0, 940, 0⟩], cur := ⟨0, 12, 12, 4920, 0, 0, 0, 0, 0⟩, outs := [],
+             trace := [⟨2, 12, 13, 40, 30⟩, ⟨2, 12, 13, 40, 30⟩] })
+    (p₁ := [2]) (p₂ := [2]) (t := 13) (ti := (some 12, some 12)) (am := (40, 40)) (o₁ := 30) (o₂ := 30) (x := 2)
+    (m := ⟨2, 13, 12, 1000, 1080, 0, 0, 940, 0⟩)
+    (by rfl) (by rfl) (by rfl) (by decide) (by rfl) (by rfl) (by rfl)
+
+/-- AUDIT (strength): `same_market_outputs_jointly_covered` only covers an output token on the LONG side of the
+output market; the short-side counterpart (which is what the file's `exSt` example exercises) -/
+theorem same_market_outputs_jointly_covered_short {s s' : RState} {p₁ p₂ : List Nat} {t : Nat}
+    {ti : Option Nat × Option Nat} {am : Nat × Nat} {o₁ o₂ : Nat} {x : Nat} {m : RMarket}
+    (h : routerSwap false s p₁ p₂ (t, t) ti am = some (s', o₁, o₂))
+    (h1 : p₁.getLast? = some x) (h2 : p₂.getLast? = some x) (hx : x ≠ s'.cur.token)
+    (hm : findMarket s'.markets x = some m) (hp : m.isPure = false) (hs : m.side t = some false) :
+    m.colS + o₁ + o₂ ≤ m.balS := by
+  have hf := routerSwap_final_validated h
+  unfold finalBalCheck at hf
+  simp only [h1, h2, Option.getD_some, Bool.false_eq_true, if_false, if_true, hx, hm, Bool.and_eq_true] at hf
+  exact validExcl_joint_short m t o₁ o₂ hp hs hf.1
+
+example : (940 : Nat) + 30 + 30 ≤ 1000 :=
+  same_market_outputs_jointly_covered_short
+    (s := exSt 940)
+    (s' := { markets := [⟨2, 12, 13, 1080, 1000, 0, 0, 0, 940⟩], cur := ⟨0, 12, 12, 4920, 0, 0, 0, 0, 0⟩, outs := [],
+             trace := [⟨2, 12, 13, 40, 30⟩, ⟨2, 12, 13, 40, 30⟩] })
+    (p₁ := [2]) (p₂ := [2]) (t := 13) (ti := (some 12, some 12)) (am := (40, 40)) (o₁ := 30) (o₂ := 30) (x := 2)
+    (m := ⟨2, 12, 13, 1080, 1000, 0, 0, 0, 940⟩)
+    (by rfl) (by rfl) (by rfl) (by decide) (by rfl) (by rfl) (by rfl)
+
+end RouterAudit
+end Audit
+
+
 end Gmx.C22
